@@ -64,10 +64,11 @@ Proof.
         -- intros y [Ey|Hy]; [now left|right; auto].
 Qed.
 
-(** * all chunks of one code at one end position offer the same entries with the same credibility *)
-Lemma chunk_sibling g t predict e ca cb tb :
+(** * every chunk of one code offers the same entries: an entry found in a chunk [cb] of the code (at whatever end
+    position) is also in a chunk at [ca]'s end position with [ca]'s credibility, match size and remaining length *)
+Lemma chunk_sibling g t predict e e2 ca cb tb :
   wf_graph g -> wf_table t -> 0 < g_ilen g ->
-  In (e, ca) (lookup_chunks g t 0 predict) -> In (e, cb) (lookup_chunks g t 0 predict) ->
+  In (e, ca) (lookup_chunks g t 0 predict) -> In (e2, cb) (lookup_chunks g t 0 predict) ->
   c_code cb = c_code ca -> In tb (c_ents cb) ->
   exists cb', In (e, cb') (lookup_chunks g t 0 predict) /\ c_code cb' = c_code ca /\ c_cred cb' = c_cred ca /\
               c_match cb' = c_match ca /\ c_remlen cb' = c_remlen ca /\ In tb (c_ents cb').
@@ -136,7 +137,55 @@ Proof.
   pose proof (script_phrase_entries_sorted g t 0 predict W TS) as Sorted. fold S in Sorted.
   (* b's entry also sits in a chunk with a's credibility: that copy b' outranks a *)
   rewrite <- Hend in Hcb.
-  destruct (chunk_sibling g t predict (fst a) ca cb tb W WT Hs Hca Hcb (eq_sym Ecode) Htb)
+  destruct (chunk_sibling g t predict (fst a) (fst a) ca cb tb W WT Hs Hca Hcb (eq_sym Ecode) Htb)
+    as (cb' & Hcb' & Ec' & Ecr' & Em' & Er' & Htb').
+  set (b' := (fst a, mk_dentry cb' tb)).
+  assert (Hb'S : In b' S) by (apply script_phrase_entries_in; [exact W|]; eauto).
+  (* positions of a and b in S: each is the first element of its text *)
+  assert (Eb2 : distinct_pe seen S = (l1 ++ a :: l2) ++ b :: l3) by (rewrite E, <- app_assoc; reflexivity).
+  destruct (distinct_pe_first seen S _ _ _ Eb2) as (preb & postb & ESb & Firstb & Inclb & _).
+  assert (Ha_pre : In a preb) by (apply Inclb; apply in_or_app; right; now left).
+  (* b' has the text of b, so it is not before b; it is not b's position unless equal; hence at or after b *)
+  assert (Hb'pos : In b' (b :: postb)).
+  { rewrite ESb in Hb'S. apply in_app_or in Hb'S. destruct Hb'S as [H|H]; [|exact H].
+    exfalso. apply (Firstb b' H). unfold b'. cbn [snd]. rewrite Eb. reflexivity. }
+  (* a is before b' in the sorted stream: pe_le a b' *)
+  assert (Rab' : pe_le a b').
+  { apply in_split in Ha_pre. destruct Ha_pre as (p1 & p2 & ->).
+    rewrite ESb, <- app_assoc in Sorted. cbn [app] in Sorted.
+    destruct Hb'pos as [<-|Hp].
+    - eapply (sorted_pair_inv pe_le p1 a p2 b postb). exact Sorted.
+    - apply in_split in Hp. destruct Hp as (q1 & q2 & ->).
+      replace (p1 ++ a :: p2 ++ b :: q1 ++ b' :: q2) with (p1 ++ a :: (p2 ++ b :: q1) ++ b' :: q2) in Sorted
+        by (rewrite <- app_assoc; reflexivity).
+      eapply sorted_pair_inv. exact Sorted. }
+  destruct Rab' as [Hlt|[_ Hdle]]; [unfold b' in Hlt; cbn in Hlt; lia|].
+  unfold b' in Hdle. cbn [snd] in Hdle. rewrite Ea in Hdle.
+  assert (OKa : chunk_ok ca) by (eapply lookup_chunks_ok; eassumption).
+  assert (OKb : chunk_ok cb') by (eapply lookup_chunks_ok; eassumption).
+  unfold dle in Hdle. rewrite (dkey_mk ca ta (proj2 (proj2 OKa))), (dkey_mk cb' tb (proj2 (proj2 OKb))) in Hdle.
+  unfold kle, klt, ekey, is_exact in Hdle. rewrite Ec', Ecr', Em', Er' in Hdle.
+  destruct (c_match ca =? length (c_code ca)); lia.
+Qed.
+
+(** the FULL wording of the property - "entries with the same code appear in non-increasing weight order" - for the
+    candidate list: no restriction to one end position or one exactness class.  A heavier entry of the code also sits
+    in a chunk with [a]'s end position, credibility and class ([chunk_sibling]), i.e. in front of [a]; being the first
+    of its text, [b] cannot come after it. *)
+Theorem script_distinct_same_code_weight_order_full g t predict seen l1 a l2 b l3 ca ta cb tb :
+  wf_graph g -> wf_table t -> table_sorted t -> 0 < g_ilen g ->
+  distinct_pe seen (script_phrase_entries (lookup g t 0 predict)) = l1 ++ a :: l2 ++ b :: l3 ->
+  In (fst a, ca) (lookup_chunks g t 0 predict) -> In ta (c_ents ca) -> snd a = mk_dentry ca ta ->
+  In (fst b, cb) (lookup_chunks g t 0 predict) -> In tb (c_ents cb) -> snd b = mk_dentry cb tb ->
+  c_code ca = c_code cb ->
+  (te_w tb <= te_w ta)%Z.
+Proof.
+  intros W WT TS Hs E Hca Hta Ea Hcb Htb Eb Ecode.
+  destruct (Z_le_gt_dec (te_w tb) (te_w ta)) as [L|G]; [exact L|exfalso].
+  set (S := script_phrase_entries (lookup g t 0 predict)) in *.
+  pose proof (script_phrase_entries_sorted g t 0 predict W TS) as Sorted. fold S in Sorted.
+  (* b's entry also sits in a chunk with a's credibility: that copy b' outranks a *)
+  destruct (chunk_sibling g t predict (fst a) (fst b) ca cb tb W WT Hs Hca Hcb (eq_sym Ecode) Htb)
     as (cb' & Hcb' & Ec' & Ecr' & Em' & Er' & Htb').
   set (b' := (fst a, mk_dentry cb' tb)).
   assert (Hb'S : In b' S) by (apply script_phrase_entries_in; [exact W|]; eauto).
